@@ -71,9 +71,12 @@ def run(o, ctx, tier, seed, replay=None):
             o.violations.append({"case": c, "impl": a[:200], "why": why})
 
 
-register("C06", unclaimed="body model being updated after the size-line fix", lean=["Khttp.Props.C06"], run=run,
+register("C06", lean=["Khttp.Props.C06"], run=run,
          rule="BODY cases: payload lengths {0,1,2,3,5,8,17,100,4095,4096,4097,9000,random} x {fixed, chunked with random chunkings, mixed-case / zero-padded sizes, extensions, trailers} x "
               "{valid + trailing bytes, every kind of truncation point, single-byte corruption of a size digit or of the CRLF after chunk data} x random leftover|stream split x stream segmentations "
               "{all, 1-byte, random} x caller schedules {1, 2, 7, 1024, 4096, 8192, random} x {Read, BufRead, drop-drain}. distinct_nontrivial = all distinct case lines.",
          assumptions=["std BufReader / Take / read_line / read_exact semantics as modelled (trusted)", "the raw stream returns no I/O error other than EOF", "caller buffers of size >= 1"],
-         explanation="(see Props/C06)")
+         explanation="Theorems (Props/C06), each for every leftover|stream split, every segmentation of the stream and every caller schedule, through Read and BufRead: fixed and chunked bodies (any hex numerals, "
+                     "extensions, trailers) deliver exactly the payload then end-of-body; the fixed reader never pulls a byte past the body (Take) and never touches the end of the stream; every proper prefix of a valid "
+                     "encoding ends in an error or has delivered the full payload (clean end only after the complete last-chunk line); a non-hex size field or a missing CRLF after chunk data is an error after a prefix of the payload; "
+                     "fuel adequacy; failure flag set exactly on error. Oracle: independent Python expectation per case (payload / truncation / corruption class).")
